@@ -256,7 +256,7 @@ def part_b(tier, seed, ev, rep, repo, build, outdir, par):
                     json.dump(r, open(rp, "w"), indent=1)
                     return rp
                 rep.add(sig, f"IOWait {name} seed {sd}: invariant {inv} violated on the recorded execution {why}", writer)
-            rejected = [j for j in range(1, len(traces) + 1) if j not in acc]
+            rejected = [j for j in range(1, len(traces) + 1) if j not in acc and j not in set(st.get("cancelled", []))]
             if st.get("violated"):
                 # validation processes stop at their first violation: only count what was examined
                 rejected = []
